@@ -94,7 +94,7 @@ Inductive op :=
 Section Lex.
 Variable kindof : nat -> kind.                 (* class of each object *)
 Variable strictof : nat -> bool.               (* composite.strict_naming *)
-Variable reserved : kind -> string -> bool.    (* label in dir(composite), children aside *)
+Variable reserved : kind -> string -> bool.    (* label is an attribute of the composite (instance __dict__ or class), children aside *)
 Variable N : nat.                              (* objects 0..N-1 are observed *)
 Variable pfuel : nat.                          (* bound for the ancestor walk, the suffix search, lexical_path *)
 
